@@ -77,6 +77,10 @@ val fold_left : ('a1 -> 'a2 -> 'a1) -> 'a2 list -> 'a1 -> 'a1
 
 val fold_right : ('a2 -> 'a1 -> 'a1) -> 'a1 -> 'a2 list -> 'a1
 
+val existsb : ('a1 -> bool) -> 'a1 list -> bool
+
+val forallb : ('a1 -> bool) -> 'a1 list -> bool
+
 val filter : ('a1 -> bool) -> 'a1 list -> 'a1 list
 
 val firstn : nat -> 'a1 list -> 'a1 list
@@ -239,6 +243,10 @@ val leb0 : string -> string -> bool
 val append : string -> string -> string
 
 val length0 : string -> nat
+
+val string_of_list_ascii : ascii list -> string
+
+val list_ascii_of_string : string -> ascii list
 
 val uint_of_char : ascii -> uint option -> uint option
 
@@ -835,6 +843,128 @@ val combine_all : acc -> yaml list -> acc sres
 
 val deep_merge : nat -> yaml list -> value sres
 
+type comp =
+| CRoot
+| CCur
+| CParent
+| CNormal of string
+
+val comp_eqb : comp -> comp -> bool
+
+val is_abs : string -> bool
+
+val components : string -> comp list
+
+val ends_with_slash : string -> bool
+
+val path_push : string -> string -> string
+
+val cpop : comp list -> comp list
+
+val comp_text : comp -> string
+
+val print_comps : comp list -> string
+
+val to_lexical_normal : string -> bool -> string
+
+val comps_prefix : comp list -> comp list -> bool
+
+val strip_trailing_slashes : nat -> string -> string
+
+val last_is_normal : string -> bool
+
+val drop_last_segment : ascii list -> ascii list
+
+val parent_text : string -> string
+
+val with_file_name : string -> string -> string
+
+type config = { cf_inv : string; cf_nodes : string; cf_classes : string;
+                cf_ignore : bool; cf_compose : bool;
+                cf_reported : string list; cf_compiled : string list;
+                cf_dots : bool }
+
+val opt_default : string option -> string -> string
+
+val config_new :
+  string option -> string option -> string option -> bool option -> config res
+
+val value_text : yaml -> string option
+
+val is_flag_name : string -> bool
+
+val upd_nodes : config -> string -> config
+
+val upd_classes : config -> string -> config
+
+val upd_ignore : config -> bool -> config
+
+val upd_compose : config -> bool -> config
+
+val upd_reported : config -> string list -> config
+
+val upd_compiled : config -> string list -> config
+
+val upd_dots : config -> bool -> config
+
+val all_strings : yaml list -> string list option
+
+val set_option : config -> string -> string -> yaml -> config res
+
+val compile : (string -> bool) -> config -> config res
+
+val set_options : config -> string -> (string * yaml) list -> config res
+
+val load_from_file :
+  (string -> bool) -> config -> string -> (string * yaml) list -> config res
+
+val from_dict :
+  (string -> bool) -> string -> (string * yaml) list -> config res
+
+val set_regexp : (string -> bool) -> config -> string list -> config res
+
+val is_class_ignored : (string -> string -> bool) -> config -> string -> bool
+
+type cop =
+| ONew of string option * string option * string option * bool option
+| OLoad of string * (string * yaml) list
+| ODict of string * (string * yaml) list
+| OSetRegexp of string list
+| OSetIgnore of bool
+| OSetCompose of bool
+| OSetFlag
+| OUnsetFlag
+| OClearFlags
+
+val cfg_step : (string -> bool) -> config -> cop -> config * bool
+
+type pyobj =
+| PyNone
+| PyBool of bool
+| PyInt of z
+| PyFloat of ftoken
+| PyStr of string
+| PyList of pyobj list
+| PyDict of (pyobj * pyobj) list
+
+val py_int_of : pyobj -> z option
+
+val py_key_eqb : pyobj -> pyobj -> bool
+
+val py_hashable : pyobj -> bool
+
+val py_set_item :
+  (pyobj * pyobj) list -> pyobj -> pyobj -> (pyobj * pyobj) list
+
+type 'a pyres =
+| PyOk of 'a
+| PyTypeError
+| PyPanic
+
+val pybind : 'a1 pyres -> ('a1 -> 'a2 pyres) -> 'a2 pyres
+
+val as_py_obj : value -> pyobj pyres
+
 val run_fuel : nat
 
 val merge_layers : yaml list -> mapping res
@@ -911,3 +1041,37 @@ val run_spec : string list -> string
 val run_value2 : string list -> string
 
 val run_line4 : string -> string
+
+val p_opt_str : string -> string option option
+
+val p_opt_bool : string -> bool option option
+
+val p_entries :
+  nat -> string list -> ((string * yaml) list * string list) option
+
+val p_counted :
+  (nat -> string list -> ('a1 * string list) option) -> string list ->
+  ('a1 * string list) option
+
+val p_ops : nat -> string list -> cop list option
+
+val pair_up : string list -> (string * string) list
+
+val tf : bool -> string
+
+val canon_config :
+  (string -> string -> bool) -> string list -> config -> string
+
+val default_config : config
+
+val run_config : string list -> string
+
+val run_line5 : string -> string
+
+val canon_py : pyobj -> string
+
+val run_pynode : string list -> string
+
+val is_pynode_line : string list -> bool
+
+val run_line6 : string -> string
